@@ -11,7 +11,7 @@ from ..dataflow import bind_call, fmt_origin, origins
 from ..decide import expand_expr
 from ..loader import AnalysisError, ClassInfo, ConstInfo, FuncInfo
 from ..report import Ctx
-from .common import all_guards, call_name, direct_guards, norm, where
+from .common import all_guards, call_name, direct_guards, must_atoms, norm, where
 from .optflow import AUTO_SET, _bind_dataclass, _is_options_origin, find_parse_args
 
 # from the statement of C16: ".flowmark.toml before flowmark.toml before a pyproject.toml that has a [tool.flowmark] table"
@@ -243,29 +243,6 @@ def check_config(ctx: Ctx) -> None:
 
     # ---- K8 main wires the merge before anything consumes the options
     _check_main_wiring(ctx, main, merge)
-
-
-def must_atoms(edges) -> list[tuple[ast.AST, bool]]:
-    """Sub-conditions with the truth value they are known to have, given the (test node, label) branch edges taken:
-    `if not A: continue` passed on F gives (A, True); `if A or B: continue` passed on F gives (A, False), (B, False)."""
-    out: list[tuple[ast.AST, bool]] = []
-
-    def add(e: ast.AST, truth: bool) -> None:
-        if isinstance(e, ast.UnaryOp) and isinstance(e.op, ast.Not):
-            add(e.operand, not truth)
-        elif isinstance(e, ast.BoolOp) and isinstance(e.op, ast.And) and truth:
-            for v in e.values:
-                add(v, True)
-        elif isinstance(e, ast.BoolOp) and isinstance(e.op, ast.Or) and not truth:
-            for v in e.values:
-                add(v, False)
-        else:
-            out.append((e, truth))
-
-    for b, lab in edges:
-        if b.kind == "test" and lab in ("T", "F"):
-            add(b.ast, lab == "T")
-    return out
 
 
 def _str_set(n: ast.AST | None) -> set[str] | None:
